@@ -175,3 +175,64 @@ Proof.
   destruct H as (_ & Ht & Hc). exists rc, q. split; [reflexivity|]. split; [exact Ht|].
   destruct Hc as [[A B]|(A & _ & _ & D)]; [left; auto | right; split; [exact A|]]. unfold is_live. now rewrite D.
 Qed.
+
+(* ---------- no process outlives the last disconnect ---------- *)
+Fixpoint cnt_run (cs : peer -> N) (ls : list plabel) : peer -> N :=
+  match ls with [] => cs | l :: r => cnt_run (cnt_step cs l) r end.
+
+Definition RcInv (s : pm) (cs : peer -> N) : Prop :=
+  forall p rc q, aget p (table s) = Some (rc, q) -> rc <= cs p.
+
+Lemma rc_step s cs l : RcInv s cs -> RcInv (fst (pstep s l)) (cnt_step cs l).
+Proof.
+  intros HR p rc q. destruct l as [p0|p0|p0|q0|q0]; simpl.
+  - unfold get_or_create. destruct (aget p0 (table s)) as [[rc0 q1]|] eqn:E0; simpl.
+    + destruct (N.eqb_spec p p0) as [->|Hne].
+      * rewrite aget_aput_eq. intro E. inversion E; subst. pose proof (HR _ _ _ E0). lia.
+      * rewrite aget_aput_neq by congruence. apply HR.
+    + destruct (N.eqb_spec p p0) as [->|Hne].
+      * rewrite aget_aput_eq. intro E. inversion E; subst. lia.
+      * rewrite !aget_aput_neq by congruence. apply HR.
+  - destruct (aget p0 (table s)) as [[rc0 q1]|] eqn:E0.
+    + destruct (N.ltb_spec 1 rc0); simpl.
+      * destruct (N.eqb_spec p p0) as [->|Hne].
+        -- rewrite aget_aput_eq. intro E. inversion E; subst. pose proof (HR _ _ _ E0). lia.
+        -- rewrite aget_aput_neq by congruence. apply HR.
+      * destruct (N.eqb_spec p p0) as [->|Hne].
+        -- now rewrite aget_adel_eq.
+        -- rewrite aget_adel_neq by congruence. apply HR.
+    + simpl. destruct (N.eqb_spec p p0) as [->|Hne]; [rewrite E0; discriminate | apply HR].
+  - unfold get_or_create. destruct (aget p0 (table s)) as [[rc0 q1]|] eqn:E0; simpl; [apply HR|].
+    destruct (N.eqb_spec p p0) as [->|Hne].
+    + rewrite aget_aput_eq. intro E. inversion E; subst. lia.
+    + rewrite aget_aput_neq by congruence. apply HR.
+  - destruct (aget q0 (queues s)) as [[p1 st]|]; [destruct st|]; simpl; apply HR.
+  - destruct (aget q0 (queues s)) as [[p1 st]|]; [destruct st|]; simpl; try apply HR.
+    intro E. destruct (aget p1 (table s)) as [[rc1 q1]|] eqn:E1; [|eapply HR; eauto].
+    destruct (N.eqb q1 q0); [|eapply HR; eauto].
+    destruct (N.eqb_spec p p1) as [->|Hne]; [now rewrite aget_adel_eq in E|].
+    rewrite aget_adel_neq in E by congruence. eapply HR; eauto.
+Qed.
+
+Lemma rc_run : forall ls s cs, RcInv s cs -> RcInv (prun_pm s ls) (cnt_run cs ls).
+Proof. induction ls as [|l r IH]; intros s cs H; simpl; [exact H | apply IH, rc_step, H]. Qed.
+
+(* after a Disconnected that leaves the peer with no connection, the peer has no live process *)
+Lemma c17_no_outlive ls p :
+  let s := prun_pm pm_new ls in
+  cnt_run (fun _ => 0) (ls ++ [LDisconnected p]) p = 0 ->
+  let s' := fst (pstep s (LDisconnected p)) in
+  forall q, aget q (queues s') <> Some (p, QLive).
+Proof.
+  intros s Hc s' q Hq.
+  assert (Hrun : forall ls' cs, cnt_run cs (ls' ++ [LDisconnected p]) = cnt_step (cnt_run cs ls') (LDisconnected p)).
+  { induction ls' as [|l r IH]; intro cs; simpl; [reflexivity | apply IH]. }
+  rewrite Hrun in Hc. simpl in Hc. rewrite N.eqb_refl in Hc.
+  pose proof (prun_inv ls pm_new PMInv_new) as HI. fold s in HI.
+  assert (HR : RcInv s (cnt_run (fun _ => 0) ls)) by (apply rc_run; intros p0 rc0 q0 H; discriminate).
+  pose proof (pstep_inv s (LDisconnected p) HI) as [H1' _ _]. fold s' in H1'.
+  destruct (H1' _ _ Hq) as [rc' E]. unfold s' in E. simpl in E.
+  destruct (aget p (table s)) as [[rc0 q0]|] eqn:Et.
+  - pose proof (HR _ _ _ Et). destruct (N.ltb_spec 1 rc0); [lia|]. simpl in E. now rewrite aget_adel_eq in E.
+  - simpl in E. congruence.
+Qed.
